@@ -4,16 +4,20 @@ import props.c01 as c01
 from common import tokens_close
 
 ID = "C03"
-TARGETS = ["Proofs.C03"]
+TARGETS = ["Proofs.C03", "Proofs.DataRefine"]
 GEN_PREFIXES = []
 THEOREMS = {"Proofs.C03": ["VerifModel.C03." + t for t in [
     "C03_sortU", "strictAsc_filter", "memX_filter", "C03_commonValues", "C03_ranges_inclusive",
-    "C03_obsrange_value", "C03_obsrange_other", "C03_empty_nan", "C03_empty_error"]]}
+    "C03_obsrange_value", "C03_obsrange_other", "C03_empty_nan", "C03_empty_error"]],
+    "Proofs.DataRefine": ["VerifModel.DataRefine." + t for t in [
+        "getScores_refines", "C03_dims_are_intersection", "C03_dims_error"]]}
 TRUSTED_BASE = c01.TRUSTED_BASE + [
     "option parsing (driver.py -> Data constructor arguments) is not part of this check (see C13); the check "
     "passes already-parsed values to Data(...)"]
 ASSUMPTIONS = ["init times are whole seconds >= 0 (so that int(t/86400) is the UTC day)",
-               "-tod takes hours of day; init times at whole hours"]
+               "-tod takes hours of day; init times at whole hours",
+               "C03_dims_are_intersection / C03_dims_error: no hypothesis beyond the result of Data.init; "
+               "getScores_refines: arrays of the declared shapes (wfInput)"]
 RULE = ("data.subset: generated datasets with each of the nine subsetting options (+ -obsrange) present with p=1/2: "
         "values from the data's own coordinates, values matching nothing, repeated values, range end points equal to a "
         "station's coordinate or 0.5 off, dates/hours selecting strict subsets; observable = verified times/leadtimes/"
@@ -23,8 +27,13 @@ EXHAUSTIVE_NOTE = "thorough: all 2^9 subsets of the nine options on 20 datasets"
 LEVEL_TEXT = ("Lean theorems: the verified value list is strictly ascending (hence duplicate-free), NaN-free and contains a "
               "value iff it is in the user's list and in every input; range tests are inclusive at both ends; -obsrange "
               "keeps an observation iff it is inside the inclusive range and touches no other field; no valid case gives "
-              "NaN and an empty dimension gives the error exit. Tied to the real Data class by correspondence; the "
-              "documented set semantics is evaluated independently by the oracle.")
+              "NaN and an empty dimension gives the error exit. End to end (Proofs/DataRefine.lean): "
+              "C03_dims_are_intersection / C03_dims_error prove that Data.init returns exactly the dimensions of the "
+              "value-based specification specDims (ascending duplicate-free values present in every input incl. the "
+              "climatology and inside the user's options, set semantics of -l/-lx/-latrange/-lonrange/-elevrange/-d/-tod) "
+              "and stops with an error exactly when the specification has none; getScores_refines extends this to every "
+              "request's answer. Tied to the real Data class by correspondence; the documented set semantics is "
+              "evaluated independently by the Python oracle and by the Lean specification (driver op specdata).")
 TECHNIQUE = c01.TECHNIQUE
 
 
@@ -66,5 +75,6 @@ def cmp(op, impl_out, model_out):
     return tokens_close(impl_out, model_out, 1e-9, 1e-12)
 
 
+spec_op = c01.spec_op
 judge = c01.judge
 nontrivial = c01.nontrivial
